@@ -1,10 +1,57 @@
 package main
 
 import (
+	"fmt"
+	"os"
+	"runtime"
 	"strings"
+	"time"
 
 	"verifh/ev"
 )
+
+// inProcStepTimeout bounds one transition of an in-process search. Transitions take microseconds; one that is
+// still running after this long, with a function of the repository on the stack of a running goroutine, does
+// not return (an endless loop cannot be interrupted from outside, so the search stops there).
+const inProcStepTimeout = 90 * time.Second
+
+func guardedExec(run *ev.Run, exec func(hist []string) (string, bool), h []string) (string, bool) {
+	type res struct {
+		key    string
+		expand bool
+	}
+	ch := make(chan res, 1)
+	go func() {
+		k, e := exec(h)
+		ch <- res{k, e}
+	}()
+	select {
+	case r := <-ch:
+		return r.key, r.expand
+	case <-time.After(inProcStepTimeout):
+	}
+	buf := make([]byte, 1<<20)
+	buf = buf[:runtime.Stack(buf, true)]
+	// the goroutine that is still executing repository code
+	witness := ""
+	for _, g := range strings.Split(string(buf), "\n\n") {
+		if strings.Contains(g, "glowlabs-org/gca-backend/") && (strings.Contains(g, "[running]") || strings.Contains(g, "[runnable]")) {
+			witness = g
+			break
+		}
+	}
+	if witness == "" {
+		fmt.Println("HARNESS ERROR: a transition did not finish within", inProcStepTimeout, "and no goroutine is running repository code")
+		run.Count("harness_errors", 1)
+		run.NotExhaustive("a transition timed out without a witness (inconclusive)")
+		run.Finish()
+		os.Exit(3)
+	}
+	run.Violation("operation-does-not-return/"+panicSite(witness), map[string]interface{}{"history": h, "running_for": inProcStepTimeout.String(), "goroutine": tailStr(witness, 3000)})
+	run.NotExhaustive("the search stopped at an operation that does not return")
+	os.Exit(run.Finish())
+	return "", false
+}
 
 // bfsInProc is the explicit-state search used for objects that are cheap to
 // rebuild: a state is the shortest operation list reaching it, a successor is
@@ -19,7 +66,7 @@ type bfsStats struct {
 func bfsInProc(run *ev.Run, maxDepth, stateCap int, ops func(hist []string) []string, exec func(hist []string) (key string, expand bool)) bfsStats {
 	var st bfsStats
 	seen := map[string]struct{}{}
-	k0, _ := exec(nil)
+	k0, _ := guardedExec(run, exec, nil)
 	seen[k0] = struct{}{}
 	frontier := [][]string{nil}
 	for depth := 0; depth < maxDepth && len(frontier) > 0; depth++ {
@@ -27,7 +74,7 @@ func bfsInProc(run *ev.Run, maxDepth, stateCap int, ops func(hist []string) []st
 		for _, h := range frontier {
 			for _, op := range ops(h) {
 				nh := append(append(make([]string, 0, len(h)+1), h...), op)
-				key, expand := exec(nh)
+				key, expand := guardedExec(run, exec, nh)
 				st.Transitions++
 				if _, ok := seen[key]; ok {
 					continue
